@@ -2,6 +2,7 @@
 //! op lines for the Lean model driver and the implementation's canonical answers, and
 //! evaluates each property directly on the implementation (failing-input search).
 mod c07;
+mod c18;
 mod c19;
 mod enc;
 mod out;
@@ -50,6 +51,7 @@ fn main() {
     // the real code logs through `tracing`; keep stdout/stderr quiet
     match prop.as_str() {
         "C07" => c07::run(&a),
+        "C18" => c18::run(&a),
         "C19" => c19::run(&a),
         _ => {
             eprintln!("no harness for {}", prop);
